@@ -195,6 +195,14 @@ func Judge(dom Domain, r Result, exp []*ref.T, c Cmp) (kind, detail string) {
 	if r.Mutated != "" {
 		return "mutated-input", r.Mutated
 	}
+	if r.Err == nil && r.ReadErr == "" {
+		// success with a nil tensor among the results is wrong in every domain
+		for i, o := range r.Outs {
+			if o == nil {
+				return "nil-output", fmt.Sprintf("no error, but output %d is nil", i)
+			}
+		}
+	}
 	switch dom {
 	case DNoPanic:
 		return "", ""
